@@ -46,6 +46,8 @@ type Node struct {
 	CommitErrAt map[uint64]bool
 	// blocking SPI: heights at which RequestNewBlockProposal / ValidateBlockProposal wait for their context
 	BlockReq, BlockVal map[uint64]bool
+	HoldReq            map[uint64]chan struct{} // same for RequestNewBlockProposal
+	InSPI              int                      // blocking-capable SPI calls in progress
 	HoldVal            map[uint64]chan struct{} // ValidateBlockProposal of that height waits until the harness closes the channel (a slow consumer that ignores its context)
 	BlockCommittee     map[uint64]bool // heights whose RequestOrderedCommittee fails for as long as its context lives
 	SpiCalls []*SpiCall
@@ -83,14 +85,20 @@ func newNode(x *X, idx int) *Node {
 		}
 		// the committee contract is unavailable: the call only comes back (with an error) once its context ends
 		n.ev("spi-committee(h%d) enter ctxerr=%v", h, ctx.Err() != nil)
+		n.inSPI(1)
 		d := ctx.Done()
 		vs.Recv(d)
 		<-d
+		n.inSPI(-1)
 		n.ev("spi-committee(h%d) return error", h)
 		return ctx.Err()
 	}
 	n.BU = &kit.BlockUtils{Me: id}
-	n.BU.ReqGate = func(ctx context.Context, h primitives.BlockHeight) { n.spi("request", uint64(h), ctx, n.BlockReq[uint64(h)]) }
+	n.HoldReq = map[uint64]chan struct{}{}
+	n.BU.ReqGate = func(ctx context.Context, h primitives.BlockHeight) {
+		n.spiHold = n.HoldReq[uint64(h)]
+		n.spi("request", uint64(h), ctx, n.BlockReq[uint64(h)])
+	}
 	n.HoldVal = map[uint64]chan struct{}{}
 	n.BU.ValGate = func(ctx context.Context, h primitives.BlockHeight) {
 		n.spiHold = n.HoldVal[uint64(h)]
@@ -113,6 +121,8 @@ func (n *Node) spi(kind string, h uint64, ctx context.Context, block bool) {
 	n.mu.Lock()
 	n.SpiCalls = append(n.SpiCalls, c)
 	n.mu.Unlock()
+	n.inSPI(1)
+	defer n.inSPI(-1)
 	n.ev("spi-%s(h%d) enter ctxerr=%v", kind, h, ctx.Err() != nil)
 	if ctx.Err() != nil {
 		n.x.Bad("C15", "spi-called-with-cancelled-context", "%s for height %d was started with an already cancelled context", kind, h)
@@ -138,6 +148,12 @@ func (n *Node) spi(kind string, h uint64, ctx context.Context, block bool) {
 	c.Returned = true
 	c.CtxErrAtReturn = ctx.Err() != nil
 	n.ev("spi-%s(h%d) return ctxerr=%v", kind, h, c.CtxErrAtReturn)
+}
+
+func (n *Node) inSPI(d int) {
+	n.mu.Lock()
+	n.InSPI += d
+	n.mu.Unlock()
 }
 
 func (n *Node) config() *interfaces.Config {
